@@ -76,6 +76,80 @@ def run(tier: str, seed: int, reg: Any, jobs: int = 16) -> list:
         got = RKHTv1.from_keys([PrivateKeyRsa(p) for p in rsak[:k]]).rkth()
         if got != exp:
             fails.append({"inputs": {"rsa_keys": k}, "detail": "RKHTv1 RKTH differs from the documented construction", "obligation": "rkth-equals-documented-construction"})
-    return [{"name": "RKTH over real keys, 1..4 keys, four ways of supplying them", "function": "spsdk.utils.crypto.rkht:RKHT.from_keys",
+    hab = _hab_srk_from_certificates(rnd)
+    return [hab, {"name": "RKTH over real keys, 1..4 keys, four ways of supplying them", "function": "spsdk.utils.crypto.rkht:RKHT.from_keys",
              "method": "P-256/P-384 keys incl. leading-zero coordinates (searched), RSA-2048; hashlib reference", "bound": f"{n} key sets x 4 encodings",
              "cases": n, "label": "bounded", "failures": fails}]
+
+
+def _hab_srk_from_certificates(rnd: Any) -> dict:
+    """HAB SRK table built from certificates (the path behind `nxpcrypto rot`): every item, decoded by hand, announces the curve's bit size
+    (521 for P-521) / the modulus and exponent lengths and carries the key material at full width; the fuse value is the SHA-256 construction
+    over the table computed by hand."""
+    import hashlib
+    import struct
+
+    from cryptography import x509
+    from cryptography.x509.oid import NameOID
+
+    from spsdk.crypto.certificate import Certificate
+    from spsdk.crypto.keys import EccCurve, PrivateKeyEcc, PrivateKeyRsa
+    from spsdk.image.secret import SrkItem, SrkTable
+
+    fails: list = []
+    n = 0
+    kinds = [("ecc", EccCurve.SECP256R1, 256), ("ecc", EccCurve.SECP384R1, 384), ("ecc", EccCurve.SECP521R1, 521), ("rsa", 2048, 2048)]
+    for kind, par, bits in kinds:
+        n += 1
+        try:
+            table = SrkTable(version=0x42 if kind == "ecc" else 0x40)
+            keys = []
+            for i in range(2):
+                prv = PrivateKeyEcc.generate_key(par) if kind == "ecc" else PrivateKeyRsa.generate_key(par)
+                name = x509.Name([x509.NameAttribute(NameOID.COMMON_NAME, f"SRK{i}")])
+                cert = Certificate.generate_certificate(name, name, prv.get_public_key(), prv, serial_number=i + 1,
+                                                        extensions=[x509.BasicConstraints(ca=True, path_length=None)])
+                table.append(SrkItem.from_certificate(cert))
+                keys.append(prv.get_public_key())
+            blob = table.export()
+            problems = []
+            pos = 4
+            for i, pub in enumerate(keys):
+                tag, ln, alg = struct.unpack_from(">BHB", blob, pos)
+                if kind == "ecc":
+                    cs = (bits + 7) // 8
+                    _a, _b, _c, _flag, _curve, _d, ks = struct.unpack_from(">6BH", blob, pos + 4)
+                    x = int.from_bytes(blob[pos + 12: pos + 12 + cs], "big")
+                    y = int.from_bytes(blob[pos + 12 + cs: pos + 12 + 2 * cs], "big")
+                    if ks != bits:
+                        problems.append(f"SRK{i}: key size field is {ks}, the curve has {bits} bits")
+                    if (x, y) != (pub.x, pub.y) or ln != 12 + 2 * cs:
+                        problems.append(f"SRK{i}: coordinates / record length do not match the key")
+                else:
+                    _a, _b, _c, _flag, mlen, elen = struct.unpack_from(">4B2H", blob, pos + 4)
+                    if mlen != bits // 8 or int.from_bytes(blob[pos + 12: pos + 12 + mlen], "big") != pub.n or int.from_bytes(blob[pos + 12 + mlen: pos + 12 + mlen + elen], "big") != pub.e:
+                        problems.append(f"SRK{i}: modulus / exponent do not match the key")
+                pos += ln
+            fuses = table.export_fuses()
+            ref = hashlib.sha256(b"".join(hashlib.sha256(blob[p: p + l]).digest() for p, l in _items(blob))).digest()
+            if fuses != ref:
+                problems.append("fuse value is not SHA-256 over the SHA-256 digests of the exported items")
+            if problems:
+                fails.append({"inputs": {"keys": f"{kind} {bits}"}, "detail": "; ".join(problems[:3]), "obligation": "hab-srk-table-from-certificates"})
+        except Exception as e:  # pylint: disable=broad-except
+            fails.append({"inputs": {"keys": f"{kind} {bits}"}, "detail": f"{type(e).__name__}: {e}", "obligation": "hab-srk-table-from-certificates"})
+    return {"name": "HAB SRK table from certificates decoded by hand", "function": "spsdk.image.secret:SrkItem.from_certificate / SrkTable.export / export_fuses",
+            "method": "fresh self-signed CA certificates for P-256/384/521 and RSA-2048, two keys per table", "bound": f"{n} tables", "cases": n,
+            "label": "bounded", "failures": fails}
+
+
+def _items(blob: bytes) -> list:
+    import struct
+
+    out, pos = [], 4
+    total = struct.unpack_from(">H", blob, 1)[0]
+    while pos < total:
+        ln = struct.unpack_from(">H", blob, pos + 1)[0]
+        out.append((pos, ln))
+        pos += ln
+    return out
